@@ -154,7 +154,7 @@ func canonical(r *UnitResult) string {
 		}
 		sort.Strings(ks)
 		for _, k := range ks {
-			if strings.Contains(k, "latency") || strings.Contains(k, "_us") || strings.Contains(k, "wall") {
+			if strings.Contains(k, "latency") || strings.Contains(k, "_us") || strings.Contains(k, "_ms") || strings.Contains(k, "wall") {
 				continue // wall-clock measurements are reported, never judged
 			}
 			fmt.Fprintf(&sb, "%s %s=%d\n", m.n, k, m.m[k])
